@@ -369,18 +369,21 @@ func runC11(c *Ctx) {
 			}
 			loopStmt = rl.Stmt
 		}
+		// every return of a runner outside the idle scan comes after the whole scan
+		nFallback, early := 0, ""
 		for _, ex := range g.Returns() {
-			ix, ok := ast.Unparen(ex.Return.Results[0]).(*ast.IndexExpr)
-			if !ok || loopStmt == nil {
+			if loopStmt == nil || len(ex.Return.Results) != 1 || core.ExprString(ex.Return.Results[0]) == "nil" || within(loopStmt, ex.Return) {
 				continue
 			}
-			if p := core.PathOf(info, ix.X); p.Valid() && p.Root == listObj && g.Dominates(g.Locate(loopStmt.X), ex.Loc) && !within(loopStmt, ex.Return) {
-				okFallback = true
+			nFallback++
+			if !(g.Dominates(g.Locate(loopStmt.X), ex.Loc) && ex.Return.Pos() > loopStmt.End()) {
+				early = c.Pos(ex.Return)
 			}
 		}
+		okFallback = nFallback >= 1 && early == ""
 		c.Check("C11-R5", f.Key()+" candidates = all loaded runners", c.Pos(f.Decl), okCollect, "the candidate list must be every value of the loaded map, collected under loadedMu")
 		c.Check("C11-R5", f.Key()+" idle runner returned from the loop", c.Pos(f.Decl), okLoop, "the loop over the candidates must return a runner on the true edge of refCount == 0 read under its refMu")
-		c.Check("C11-R5", f.Key()+" fallback only after the loop", c.Pos(f.Decl), okFallback, "the busy fallback must come after the loop over all candidates")
+		c.Check("C11-R5", f.Key()+" fallback only after the loop", c.Pos(f.Decl), okFallback, "a runner may be returned outside the idle scan only after the loop over all candidates (a return before it can pick a busy victim while an idle runner exists): "+early)
 	}
 
 	// ------------------------------------------------------------------ R6
